@@ -156,6 +156,7 @@ def run(ctx):
     if meta:
         ctx.sample(meta[len(meta) // 2])
     pwc_predictions(ctx)
+    real_classifiers(ctx)
     ctx.extra["exhaustive"] = False
 
 
@@ -203,6 +204,63 @@ def pwc_predictions(ctx):
                           {"X": X.tolist(), "y": [None if np.isnan(v) else v for v in y], "kernel": repr(kern), "speed_up": speed,
                            "idx_": w.idx_.tolist(), "y_": [None if np.isnan(v) else v for v in np.asarray(w.y_, dtype=float)]},
                           what=f"IndexClassifierWrapper around ParzenWindowClassifier (use_speed_up={speed}, {kern}) predicts differently from a fresh clone trained on the implied data")
+
+
+def real_classifiers(ctx):
+    """IndexClassifierWrapper around real scikit-learn estimators on the emulated-refit path (no native partial_fit, or
+    ignore_partial_fit=True): after fit / partial_fit (from the current or the base model) / fit again, predictions equal those of
+    a fresh clone trained once on the implied training data.  warm_start=True estimators would continue from their previous
+    solution if any layer ever fitted the same estimator object twice."""
+    from sklearn.base import clone
+    from sklearn.ensemble import RandomForestClassifier
+    from sklearn.linear_model import SGDClassifier
+    from sklearn.naive_bayes import GaussianNB
+    from sklearn.tree import DecisionTreeClassifier
+    from skactiveml.classifier import SklearnClassifier
+    from skactiveml.pool.utils import IndexClassifierWrapper
+    rng = ctx.rng("realclf")
+    mks = [("DecisionTree", lambda s: DecisionTreeClassifier(random_state=s), {}),
+           ("RandomForest[warm_start]", lambda s: RandomForestClassifier(n_estimators=4, warm_start=True, random_state=s), {}),
+           ("SGD[warm_start]", lambda s: SGDClassifier(loss="log_loss", warm_start=True, max_iter=30, tol=None, random_state=s), {"ignore_partial_fit": True}),
+           ("GaussianNB[ignore_partial_fit]", lambda s: GaussianNB(), {"ignore_partial_fit": True})]
+    for h in range(40 if ctx.is_quick else 400):
+        name, mk, wkw = mks[h % len(mks)]
+        n = int(rng.integers(8, 14))
+        X = rng.normal(size=(n, 2)) + rng.integers(0, 2, size=(n, 1)) * 2
+        y = rng.integers(0, 2, size=n).astype(float)
+        y[:2] = [0.0, 1.0]
+        seed = int(rng.integers(0, 1000))
+        clf = SklearnClassifier(mk(seed), classes=[0, 1], random_state=seed)
+        uniq = bool(rng.integers(0, 2))
+        ops = []
+        try:
+            w = IndexClassifierWrapper(clf, X, y, enforce_unique_samples=uniq, **wkw)
+            i0 = np.concatenate([[0, 1], rng.choice(np.arange(2, n), size=int(rng.integers(1, 4)), replace=False)])
+            w.fit(i0, set_base_clf=True)
+            ops.append(("fit", i0.tolist()))
+            for _ in range(int(rng.integers(1, 4))):
+                if rng.random() < 0.3:
+                    i1 = np.concatenate([[0, 1], rng.choice(np.arange(2, n), size=int(rng.integers(1, 5)), replace=False)])
+                    w.fit(i1)
+                    ops.append(("fit", i1.tolist()))
+                else:
+                    add = rng.choice(n, size=int(rng.integers(1, 3)), replace=False)
+                    ub = bool(rng.random() < 0.4)
+                    w.partial_fit(add, use_base_clf=ub)
+                    ops.append(("partial_fit", add.tolist(), ub))
+            P = np.asarray(w.predict_proba(np.arange(n)), dtype=float)
+            ref = clone(clf).fit(X[w.idx_], w.y_, w.sample_weight_)
+            Pr = np.asarray(ref.predict_proba(X), dtype=float)
+        except Exception as e:
+            ctx.violation(f"IndexClassifierWrapper[{name}]", "exception", repr(e)[:300], {"ops": ops, "seed": seed}, what=f"wrapper around {name} raised {err_class(e)}")
+            continue
+        ctx.count("real_classifier:" + name)
+        if len(ops) >= 2:
+            ctx.nontriv(("real", name, X.tobytes(), repr(ops), seed))
+        if not np.allclose(P, Pr, rtol=1e-9, atol=1e-12):
+            ctx.violation(f"IndexClassifierWrapper[{name}]", "prediction_differs", f"max |diff| = {np.max(np.abs(P - Pr)):.3g} after {ops}",
+                          {"X": X.tolist(), "y": y.tolist(), "ops": ops, "seed": seed, "enforce_unique_samples": uniq, "idx_": np.asarray(w.idx_).tolist()},
+                          what=f"IndexClassifierWrapper around SklearnClassifier({name}) predicts differently from a fresh copy trained on the implied data (history {ops})")
 
 
 def replay(ctx, path):
